@@ -55,6 +55,9 @@ GROUPS = {
     ("src/memmem/searcher.rs", None, "searcher", ["do_packed_search"])],
   "Shift": [
     ("src/arch/all/twoway.rs", r"impl Shift \{", "Shift", ["forward", "reverse"])],
+  "Suffix": [
+    ("src/arch/all/twoway.rs", r"impl SuffixKind \{", "SuffixKind", ["cmp"]),
+    ("src/arch/all/twoway.rs", r"impl Suffix \{", "Suffix", ["forward", "reverse"])],
   "IterHint": [
     ("src/memmem/mod.rs", r"impl<'h, 'n> Iterator for FindIter<'h, 'n> \{", "FindIter", ["size_hint"]),
     ("src/arch/generic/memchr.rs", r"impl<'h> Iter<'h> \{", "Iter", ["size_hint"])],
@@ -80,12 +83,16 @@ STRUCTS = {
     "Searcher": {},
     "IterHint": {},
     "Shift": {},
+    "Suffix": {"Suffix": "src/arch/all/twoway.rs"},
 }
 # enums read from the source: group -> {name: file}
-ENUMS = {"Shift": {"Shift": "src/arch/all/twoway.rs"}}
+ENUMS = {"Shift": {"Shift": "src/arch/all/twoway.rs"},
+         "Suffix": {"SuffixKind": "src/arch/all/twoway.rs", "SuffixOrdering": "src/arch/all/twoway.rs"}}
 VIEW_GROUPS = {"IterHint": ["FindIter", "Iter"]}
 # type hints for locals whose type Rust infers backwards
-LOCAL_HINTS = {("ApproximateByteSet", "new", "bits"): "u64"}
+LOCAL_HINTS = {("ApproximateByteSet", "new", "bits"): "u64",
+               ("Suffix", "forward", "candidate_start"): "usize", ("Suffix", "forward", "offset"): "usize",
+               ("Suffix", "reverse", "candidate_start"): "usize", ("Suffix", "reverse", "offset"): "usize"}
 
 # ---------------------------------------------------------------- lexer
 TOK = re.compile(r"""
@@ -280,6 +287,24 @@ class P:
             e = None if self.peek() == ";" else self.expr()
             self.eat(";")
             return ("return", e)
+        if v == "use":
+            while self.peek() != ";":
+                self.eat()
+            self.eat(";")
+            return ("use",)
+        if v == "while":
+            self.eat()
+            c = self.expr(nostruct=True)
+            body = self.block()
+            return ("while", c, body)
+        if v == "match":
+            e = self.primary(False)
+            if self.peek() == ";":
+                self.eat()
+                return ("expr", e)
+            if self.peek() == "}":
+                return ("tail", e)
+            return ("expr", e)
         if v == "for":
             self.eat()
             byref = self.accept("&")
@@ -430,8 +455,15 @@ class P:
             arms = []
             while self.peek() != "}":
                 pat = self.pattern()
+                if self.peek() == "if":
+                    self.eat()
+                    pat = ("pguard", pat, self.expr(nostruct=True))
                 self.eat("=>")
-                body = self.expr()
+                if self.peek() == "return":
+                    self.eat()
+                    body = ("ret", None if self.peek() in (",", "}") else self.expr())
+                else:
+                    body = self.expr()
                 arms.append((pat, body))
                 if not self.accept(","):
                     if self.peek() != "}" and body[0] not in ("block", "if", "match"):
@@ -465,6 +497,11 @@ class P:
             self.eat()
             return ("plit", int(v.replace("_", ""), 0))
         name = self.eat()
+        if self.peek() == "::":
+            path = [name]
+            while self.accept("::"):
+                path.append(self.eat())
+            return ("ppath", path)
         if self.peek() == "(":
             self.eat("(")
             inner = self.eat()
@@ -502,6 +539,10 @@ class Tr:
         self.selfty = prefix if fn["selfmode"] else None
         self.aliases = VIEWS[prefix][2] if prefix in VIEWS else {}
         self.enums = {}
+        self.in_loop = False
+        self.nloops = 0
+        self.uses_fuel = False
+        self.aux = []
 
     def fresh(self, base="t"):
         self.n += 1
@@ -551,7 +592,12 @@ class Tr:
                     return R(p[0], True, "bool")
                 if p[0] == "None":
                     return R("None", True, want or "Option<?>")
+                owners = [en for en, vs in self.enums.items() if any(v == p[0] and not f for v, f in vs)]
+                if len(owners) == 1:
+                    return R(f"{owners[0]}_{p[0]}", True, owners[0])
                 raise TieBroken(f"{w}: unknown name {p[0]}")
+            if len(p) == 2 and p[0] in self.enums and any(v == p[1] and not f for v, f in self.enums[p[0]]):
+                return R(f"{p[0]}_{p[1]}", True, p[0])
             if len(p) == 2 and p[0] in INT_BITS and p[1] == "MAX":
                 return R(f"(tmax {INT_BITS[p[0]]})", True, p[0])
             if len(p) == 3 and p[0] == "core" and p[1] in INT_BITS and p[2] == "MAX":
@@ -898,6 +944,8 @@ class Tr:
                 rn = self.expr(none[0][1], env, want)
                 ty = rs_.ty if "?" not in rs_.ty else rn.ty
                 return R(f"(match {p.text} with Some {v} => {rs_.mon()} | None => {rn.mon()} end)", False, ty)
+            if p.ty in self.enums:
+                return self.enum_match(p, arms, env, want, lambda body, e2: self.expr(body, e2, want))
             if p.ty in INT_BITS:
                 if not arms or arms[-1][0][0] != "pvar" or any(a[0][0] != "plit" for a in arms[:-1]):
                     raise TieBroken(f"{w}: integer match must be literal arms followed by one binding arm")
@@ -915,6 +963,47 @@ class Tr:
             raise TieBroken(f"{w}: unsupported match on type {p.ty}")
         return self.bind(r, g)
 
+    def enum_match(self, p, arms, env, want, tr_body):
+        """match on a value of a unit-variant enum; arms `Enum::V [if guard] => body` in source order.
+        tr_body(body, env) -> R.  The arms of one variant form an if-chain that must end unguarded."""
+        w = self.what
+        en = p.ty
+        chains = {v: [] for v, _ in self.enums[en]}
+        closed = set()
+        for pat, body in arms:
+            guard = None
+            if pat[0] == "pguard":
+                guard, pat = pat[2], pat[1]
+            if pat[0] == "ppath" and len(pat[1]) == 2 and pat[1][0] == en:
+                var = pat[1][1]
+            elif pat[0] == "pvar" and pat[1] in chains:
+                var = pat[1]
+            else:
+                raise TieBroken(f"{w}: unsupported pattern in a match on {en}")
+            if var not in chains:
+                raise TieBroken(f"{w}: enum {en} has no variant {var}")
+            if var in closed:
+                continue       # unreachable arm
+            chains[var].append((guard, body))
+            if guard is None:
+                closed.add(var)
+        if closed != set(chains):
+            raise TieBroken(f"{w}: match on {en} is not exhaustive in the translated subset")
+        branches, ty = [], "?"
+        for var, _ in self.enums[en]:
+            t = None
+            for guard, body in reversed(chains[var]):
+                rb = tr_body(body, env)
+                if "?" in ty:
+                    ty = rb.ty
+                if guard is None:
+                    t = rb.mon()
+                else:
+                    rg = self.expr(guard, env, "bool")
+                    t = self.bind(rg, lambda pg, rb=rb, t=t: R(f"(if {pg.text} then {rb.mon()} else {t})", False, rb.ty)).mon()
+            branches.append(f"| {en}_{var} => {t}")
+        return R(f"(match {p.text} with {' '.join(branches)} end)", False, ty)
+
     # ---- statements with continuation; returns monadic R computing the function result
     def finish(self, val, env):
         """the function returns val (pure R)"""
@@ -930,6 +1019,45 @@ class Tr:
         s, rest = ss[0], ss[1:]
         w = self.what
         cont = lambda env2: self.stmts(rest, env2, k)
+        if s[0] == "use":
+            return cont(env)
+        if s[0] == "while":
+            return self.while_(s, env, cont)
+        if s[0] == "let" and s[3][0] == "match" and any(a[1][0] == "ret" for a in s[3][2]):
+            # let x = match opt { None => return e, Some(v) => v' };
+            scr = self.expr(s[3][1], env)
+            def fm(p):
+                if not p.ty.startswith("Option<") or len(s[3][2]) != 2:
+                    raise TieBroken(f"{w}: `let = match` with a returning arm is supported on Options only")
+                inner = p.ty[7:-1]
+                outs = {}
+                for pat, body in s[3][2]:
+                    env2 = {k_: list(x) for k_, x in env.items()}
+                    if pat == ("pvar", "None"):
+                        key, binder = "None", ""
+                    elif pat[0] == "pctor" and pat[1] == "Some":
+                        v = self.fresh(pat[2])
+                        env2.setdefault(pat[2], []).append((v, inner))
+                        key, binder = "Some", " " + v
+                    else:
+                        raise TieBroken(f"{w}: unsupported Option pattern")
+                    if body[0] == "ret":
+                        if self.in_loop:
+                            raise TieBroken(f"{w}: return inside a while loop")
+                        r_ = self.finish(R("tt", True, "()"), env2) if body[1] is None else \
+                            self.bind(self.expr(body[1], env2, self.fn["ret"]), lambda pv: self.finish(pv, env2))
+                    else:
+                        rv = self.expr(body, env2, s[2])
+                        def fl(pv, env2=env2):
+                            nv = self.fresh(s[1])
+                            env3 = {k_: list(x) for k_, x in env2.items()}
+                            env3.setdefault(s[1], []).append((nv, s[2] or pv.ty))
+                            r2 = cont(env3)
+                            return R(f"(let {nv} := {pv.text} in\n  {r2.mon()})", False, "ret")
+                        r_ = self.bind(rv, fl)
+                    outs[key] = (binder, r_.mon())
+                return R(f"(match {p.text} with Some{outs['Some'][0]} => {outs['Some'][1]} | None => {outs['None'][1]} end)", False, "ret")
+            return self.bind(scr, fm)
         if s[0] == "let":
             hint = LOCAL_HINTS.get((self.prefix, self.fn["name"], s[1]))
             r = self.expr(s[3], env, s[2] or hint)
@@ -958,6 +1086,8 @@ class Tr:
                 r2 = cont(env2)
                 return R(f"(let {vs[0]} := fst {p.text} in let {vs[1]} := snd {p.text} in\n  {r2.mon()})", False, "ret")
             return self.bind(r, ft)
+        if s[0] == "return" and self.in_loop:
+            raise TieBroken(f"{w}: return inside a while loop")
         if s[0] == "return":
             if s[1] is None:
                 return self.finish(R("tt", True, "()"), env)
@@ -967,7 +1097,11 @@ class Tr:
             if rest:
                 raise TieBroken(f"{w}: tail expression not at the end")
             if s[1][0] == "if" and self.has_effects(s[1]):
-                return self.if_stmt(s[1], env, None, tail=True)
+                return self.if_stmt(s[1], env, k)
+            if s[1][0] == "match" and self.match_has_effects(s[1]):
+                return self.match_stmt(s[1], env, k)
+            if self.in_loop:
+                raise TieBroken(f"{w}: a value at the end of a loop body")
             r = self.expr(s[1], env, self.fn["ret"])
             return self.bind(r, lambda p: self.tailval(p, env, k))
         if s[0] == "assert":
@@ -982,6 +1116,8 @@ class Tr:
             e = s[1]
             if e[0] == "if":
                 return self.if_stmt(e, env, cont)
+            if e[0] == "match":
+                return self.match_stmt(e, env, cont)
             if e[0] == "mcall" and e[1] == ("path", ["self"]):
                 sig = self.fnsigs.get((self.prefix, e[2]))
                 if sig and sig["selfmode"] == "mut":
@@ -1001,6 +1137,113 @@ class Tr:
         if s[0] == "for":
             return self.for_(s, env, cont)
         raise TieBroken(f"{w}: unsupported statement {s[0]}")
+
+    def match_has_effects(self, e):
+        return any(a[1][0] == "block" for a in e[2])
+
+    def scope_exit(self, env, env_after):
+        """bindings after a nested block: `let`s of the block are dropped, assignments are kept"""
+        env3 = {}
+        for name, st in env_after.items():
+            if name in env and len(st) >= len(env[name]):
+                env3[name] = st[:len(env[name]) - 1] + [st[len(env[name]) - 1]]
+            elif name in env:
+                env3[name] = st
+        return env3
+
+    def match_stmt(self, e, env, cont):
+        """match on an enum value whose arms are blocks with effects (assignments)"""
+        r = self.expr(e[1], env)
+        def f(p):
+            if p.ty not in self.enums:
+                raise TieBroken(f"{self.what}: statement match on type {p.ty}")
+            def tr_body(body, env_):
+                if body[0] != "block":
+                    raise TieBroken(f"{self.what}: statement match arms must be blocks")
+                return self.stmts(body[1], {k_: list(v) for k_, v in env_.items()},
+                                  lambda env_after: cont(self.scope_exit(env, env_after)))
+            return self.enum_match(p, e[2], env, None, tr_body)
+        return self.bind(r, f)
+
+    def assigned_vars(self, ss):
+        out = []
+        def add(n):
+            if n not in out:
+                out.append(n)
+        def blk(b):
+            for s in b:
+                if s[0] == "assign":
+                    lhs = s[1]
+                    if lhs[0] == "path" and len(lhs[1]) == 1:
+                        add(lhs[1][0])
+                    elif lhs[0] == "field" and lhs[1][0] == "path" and len(lhs[1][1]) == 1:
+                        add(lhs[1][1][0])
+                    else:
+                        raise TieBroken(f"{self.what}: unsupported assignment target in a loop")
+                elif s[0] in ("expr", "tail"):
+                    ex(s[1])
+                elif s[0] in ("while", "for", "return"):
+                    raise TieBroken(f"{self.what}: {s[0]} inside a while loop")
+        def ex(e):
+            if e[0] == "if":
+                blk(e[2]); blk(e[3] or [])
+            elif e[0] == "match":
+                for _, body in e[2]:
+                    if body[0] == "block":
+                        blk(body[1])
+            elif e[0] == "mcall" and e[1] == ("path", ["self"]):
+                raise TieBroken(f"{self.what}: method call on self inside a while loop")
+        blk(ss)
+        return out
+
+    def while_(self, s, env, cont):
+        """while cond { body }  ==>  a top-level Fixpoint on explicit fuel; running out of fuel is Panic OutOfFuel"""
+        w = self.what
+        if self.in_loop:
+            raise TieBroken(f"{w}: nested while loops")
+        cond, body = s[1], s[2]
+        carried = [v for v in self.assigned_vars(body) if self.lookup(env, v)]
+        self.nloops += 1
+        lname = f"rs_{self.prefix}_{self.fn['name']}_loop{self.nloops}"
+        others = [(n, st[-1]) for n, st in env.items() if st and n not in carried and "::" not in n and not st[-1][0][0].isdigit()]
+        params = [(self.fresh(n), self.lookup(env, n)[1]) for n in carried]
+        oparams = [(self.fresh(n), b[1]) for n, b in others]
+        envl = {}
+        for (n, b), (pn, pt) in zip(others, oparams):
+            envl[n] = [(pn, pt)]
+        for n, st in env.items():            # associated constants keep their literal values
+            if n not in envl and n not in carried and st:
+                envl[n] = list(st)
+        for n, (pn, pt) in zip(carried, params):
+            envl[n] = [(pn, pt)]
+        self.in_loop = True
+        rc = self.expr(cond, envl, "bool")
+        def back(env_after):
+            cur = [self.lookup(self.scope_exit(envl, env_after), n)[0] for n in carried]
+            return R(f"({lname} " + " ".join(pn for pn, _ in oparams) + " fuel' " + " ".join(cur) + ")", False, "ret")
+        rb = self.stmts(body, {k_: list(v) for k_, v in envl.items()}, back)
+        self.in_loop = False
+        tup = "(" + ", ".join(pn for pn, _ in params) + ")"
+        tty = " * ".join(coq_type(pt, self.structs, w) for _, pt in params)
+        step = self.bind(rc, lambda pc: R(f"(if {pc.text}\n  then {rb.mon()}\n  else Ok {tup})", False, "ret"))
+        binders = " ".join(f"({pn} : {coq_type(pt, self.structs, w)})" for pn, pt in oparams) + " (fuel : nat) " + \
+                  " ".join(f"({pn} : {coq_type(pt, self.structs, w)})" for pn, pt in params)
+        self.aux.append(f"(* the while loop of {self.prefix}::{self.fn['name']}; state: {', '.join(carried)} *)\n"
+                        f"Fixpoint {lname} {binders} {{struct fuel}} : res ({tty}) :=\n"
+                        f"  match fuel with\n  | O => Panic OutOfFuel\n  | S fuel' =>\n  {step.mon()}\n  end.\n")
+        self.uses_fuel = True
+        # after the loop
+        res = self.fresh("st")
+        env2 = {k_: list(x) for k_, x in env.items()}
+        outs = []
+        for n in carried:
+            v = self.fresh(n)
+            env2[n] = env2[n][:-1] + [(v, self.lookup(env, n)[1])]
+            outs.append(v)
+        r2 = cont(env2)
+        call = f"({lname} " + " ".join(b[0] for _, b in others) + " fuel " + " ".join(self.lookup(env, n)[0] for n in carried) + ")"
+        pat = "'(" + ", ".join(outs) + ")" if len(outs) > 1 else outs[0]
+        return R(f"({res} <-- {call};;\n  let {pat} := {res} in\n  {r2.mon()})", False, "ret")
 
     def tailval(self, p, env, k):
         # the value of the function body's tail expression
@@ -1029,10 +1272,7 @@ class Tr:
                         if len(st) >= len(env[name]):
                             env3[name] = st[:len(env[name]) - 1] + [st[len(env[name]) - 1]]
                 return env3
-            if tail:
-                ka = lambda env_after: self.finish(R("tt", True, "()"), env_after)
-            else:
-                ka = lambda env_after: cont(after(env_after))
+            ka = lambda env_after: cont(self.scope_exit(env, env_after))
             a = self.stmts(e[2], {k_: list(v) for k_, v in env.items()}, ka)
             b = self.stmts(e[3] or [], {k_: list(v) for k_, v in env.items()}, ka)
             return R(f"(if {pc.text}\n  then {a.mon()}\n  else {b.mon()})", False, "ret")
@@ -1057,17 +1297,18 @@ class Tr:
                 r2 = cont(env2)
                 return R(f"(let {v} := {p.text} in\n  {r2.mon()})", False, "ret")
             return self.bind(r, f)
-        if lhs[0] == "field" and lhs[1] == ("path", ["self"]):
-            cur = self.lookup(env, "self")
+        if lhs[0] == "field" and lhs[1][0] == "path" and len(lhs[1][1]) == 1 and self.lookup(env, lhs[1][1][0]):
+            tgt = lhs[1][1][0]
+            cur = self.lookup(env, tgt)
             st = self.structs.get(cur[1])
             fty = dict(st).get(lhs[2])
             if fty is None:
                 raise TieBroken(f"{w}: no field {lhs[2]} in {cur[1]}")
             r = self.expr(rhs, env, fty)
             def f(p):
-                v = self.fresh("self")
+                v = self.fresh(tgt)
                 env2 = {k_: list(x) for k_, x in env.items()}
-                env2["self"] = env2["self"][:-1] + [(v, cur[1])]
+                env2[tgt] = env2[tgt][:-1] + [(v, cur[1])]
                 parts = [p.text if fn_ == lhs[2] else f"({cur[1]}_{fn_} {cur[0]})" for fn_, _ in st]
                 r2 = cont(env2)
                 return R(f"(let {v} := mk{cur[1]} {' '.join(parts)} in\n  {r2.mon()})", False, "ret")
@@ -1261,6 +1502,12 @@ def translate(repo, group):
             rty = f"({rty} * {prefix})"
         name = f"rs_{prefix}_{fn['name']}"
         btxt = body.mon()
+        if tr.uses_fuel:
+            binders.insert(0, "(fuel : nat)")
+        for a_ in tr.aux:
+            an = re.search(r"Fixpoint (\w+)", a_).group(1)
+            defs[an] = a_
+            deps[an] = set(re.findall(r"\b(rs_[A-Za-z]+_[a-z_0-9]+)\b", a_)) - {an}
         defs[name] = (f"(* {rel}: {prefix}::{fn['name']} *)\nDefinition {name} {' '.join(binders)} : res {rty} :=\n  {btxt}.\n")
         deps[name] = set(re.findall(r"\b(rs_[A-Za-z]+_[a-z_0-9]+)\b", btxt))
     done, order = set(), []
